@@ -4,5 +4,9 @@
 
 package model
 
+// C03: the unique suffix is the model multihash of the suffix data under the FIRST configured algorithm
 //@ func GetUniqueSuffix(model, algs) (ret, err)
 //@   pure
+//@   let h, herr := hashing.CalculateModelMultihash(model, algs[0])
+//@   ensures [iff] (err == nil) == (len(algs) > 0 && herr == nil)
+//@   ensures [suffix] err == nil ==> ret == h
